@@ -38,6 +38,8 @@ def seq_configs(quick):
         ('vip/30', seq.vip_cfg('192.168.0.0/30', own, P30), d, 1),
         ('vip/29', seq.vip_cfg('192.168.0.0/29', own, P29),
          7, 6),
+        ('vip-pools 2x/30 one dir',
+         seq.vip_pools_cfg(['10.8.0.0/30', '10.9.0.0/30'], own), d, 2),
         ('rules', seq.rule_cfg(own), d, 1),
         ('specs', seq.spec_cfg(SPEC_OWNERS[:n]), d, 1),
         ('netsvc/30', seq.netsvc_cfg('192.168.0.0/30', n), d, 1),
@@ -239,7 +241,9 @@ def _run(ctx, t0):
     for k in NONTRIVIAL_SEQ + ('alloc_free', 'release_by_owner',
                                'gc_with_live_entries', 'alloc_exhausted',
                                'pick_outside', 'create_again',
-                               'restart_with_owner_gone'):
+                               'restart_with_owner_gone',
+                               'init_while_other_pool_has_live_owner',
+                               'alloc_next_to_other_pool'):
         if cov['nontrivial_counters'].get(k, 0) == 0:
             raise statex.HarnessError('vacuous run: counter %s is 0' % k)
     nontrivial += sum(cov['nontrivial_counters'][k] for k in NONTRIVIAL_SEQ)
@@ -340,7 +344,10 @@ ASSUMPTIONS = [
     'on_create_request for every surviving request + synchronize, the order '
     'of ResourceService._run',
     'VipMgr.initialize / RuleMgr.initialize / EndpointsMgr.initialize are '
-    'documented resets and modelled as such',
+    'documented resets and modelled as such; VipMgr.initialize may remove '
+    'only addresses of its own network (two pools with disjoint /30 networks '
+    'share one vips directory in the vip-pools configuration, as in '
+    'warpgate/policy_server)',
     'EndpointsMgr ownerless mode (owner=None, Windows / host services) is '
     'not explored; create_spec on an entry already held by the caller may '
     'succeed or raise (the code raises), the table must not change',
